@@ -779,6 +779,98 @@ theorem distinct_targets (idem : Bool) (pol : Option Nat) (dl : Option Nat) (pla
   rw [List.pairwise_reverse] at this
   exact this.imp (fun h => Ne.symm h)
 
+/-- The same for any notion of "same target" (`f` = what a target really is): if the plan has no two entries that
+are the same target, no two pops get the same target. -/
+theorem distinct_targets_up_to {β : Type} (f : τ → β) (idem : Bool) (pol : Option Nat) (dl : Option Nat)
+    (plan : List τ) (hp : (plan.map f).Nodup) (evs : List (Event α)) :
+    (((run (init idem pol dl plan : St α τ) evs).handed.map (·.2)).map f).Nodup := by
+  have h := handed_is_plan_prefix idem pol dl plan evs (α := α)
+  simp only at h
+  rw [← h, List.map_append, List.nodup_append] at hp
+  have := hp.1
+  rw [List.map_reverse, List.map_reverse] at this
+  unfold List.Nodup at this ⊢
+  rw [List.pairwise_reverse] at this
+  exact this.imp (fun h => Ne.symm h)
+
+/-! #### the plan of a page fetch is duplicate-free (so `plan.Nodup` is not an assumption for paged requests)
+
+`PagingExecutor::fetch_one_page` does not hand the load-balancing plan to the execution core as it is: it puts the
+stable coordinator of the previous page in front and filters it out of the load-balancing plan (`pagerPlan`).  The
+load-balancing plan names every node at most once (C05: `plan_nodup`, on node ids).  A target is the node for an
+unsharded node and (node, shard) for a sharded one (`canonTarget`); a coordinator has no shard iff its node is
+unsharded (`Coordinator::shard`, pager.rs:343-347). -/
+
+private theorem canon_fst (sharded : Nat → Bool) (t : PlanTarget) : (canonTarget sharded t).1 = t.1 := rfl
+
+/-- **The plan of a page fetch has no two entries that are the same target** — for a sharded and for an unsharded
+coordinator (placeholder shard included), wherever the coordinator is in the load-balancing plan, and without one. -/
+theorem pagerPlan_nodup (sharded : Nat → Bool) (coord : Option (Nat × Option Nat)) (lbPlan : List PlanTarget)
+    (hlb : (lbPlan.map (·.1)).Nodup)
+    (hcoord : ∀ cn cs, coord = some (cn, cs) → (cs = none ↔ sharded cn = false)) :
+    ((pagerPlan coord lbPlan).map (canonTarget sharded)).Nodup := by
+  have hlbc : ∀ l : List PlanTarget, (l.map (·.1)).Nodup → (l.map (canonTarget sharded)).Nodup := by
+    intro l hl
+    unfold List.Nodup at hl ⊢
+    rw [List.pairwise_map] at hl ⊢
+    exact hl.imp (fun hne heq => hne (by rw [← canon_fst sharded, heq, canon_fst]))
+  cases coord with
+  | none => exact hlbc _ hlb
+  | some c =>
+    obtain ⟨cn, cs⟩ := c
+    have hc := hcoord cn cs rfl
+    simp only [pagerPlan, List.map_cons, List.nodup_cons]
+    refine ⟨?_, ?_⟩
+    · intro hmem
+      obtain ⟨t, ht, heq⟩ := List.mem_map.mp hmem
+      have hf := (List.mem_filter.mp ht).2
+      have hn : t.1 = cn := by
+        have := congrArg Prod.fst heq
+        simpa [canonTarget] using this
+      cases cs with
+      | none => simp [hn] at hf
+      | some ls =>
+        have hsh : sharded cn = true := by
+          cases h : sharded cn with
+          | true => rfl
+          | false => have := hc.mpr h; cases this
+        have hs : t.2 = ls := by
+          have := congrArg Prod.snd heq
+          simpa [canonTarget, hn, hsh] using this
+        simp [hn, hs] at hf
+    · apply hlbc
+      exact hlb.sublist (List.filter_sublist.map _)
+
+/-- **No two executions of one page fetch use the same target**, with no assumption on the pager's plan: only the
+load-balancing plan must name every node at most once (C05). -/
+theorem distinct_targets_paged (sharded : Nat → Bool) (coord : Option (Nat × Option Nat)) (lbPlan : List PlanTarget)
+    (hlb : (lbPlan.map (·.1)).Nodup)
+    (hcoord : ∀ cn cs, coord = some (cn, cs) → (cs = none ↔ sharded cn = false))
+    (idem : Bool) (pol : Option Nat) (dl : Option Nat) (evs : List (Event α)) :
+    (((run (init idem pol dl (pagerPlan coord lbPlan) : St α PlanTarget) evs).handed.map (·.2)).map
+      (canonTarget sharded)).Nodup :=
+  distinct_targets_up_to _ idem pol dl _ (pagerPlan_nodup sharded coord lbPlan hlb hcoord) evs
+
+/-- In particular an unsharded coordinator's node is in the plan exactly once (the filter drops every target on it,
+whatever shard the load-balancing plan assigned — not just the placeholder shard). -/
+theorem pagerPlan_unsharded_coordinator_once (cn : Nat) (lbPlan : List PlanTarget) :
+    ((pagerPlan (some (cn, none)) lbPlan).map (·.1)).count cn = 1 := by
+  simp only [pagerPlan, List.map_cons, List.count_cons_self]
+  have : ((lbPlan.filter fun t => !(t.1 == cn && true)).map (·.1)).count cn = 0 := by
+    rw [List.count_eq_zero]
+    intro hmem
+    obtain ⟨t, ht, heq⟩ := List.mem_map.mp hmem
+    have := (List.mem_filter.mp ht).2
+    simp [heq] at this
+  simpa using this
+
+-- unsharded coordinator 1, which the load-balancing plan names first, as (1, 0): it is not repeated …
+example : pagerPlan (some (1, none)) [(1, 0), (2, 0), (3, 0)] = [(1, 2137), (2, 0), (3, 0)] := by decide
+-- … (with the filter `(node, shard.unwrap_or(2137)) != target` it would be: [(1, 2137), (1, 0), (2, 0), (3, 0)])
+-- sharded coordinator (2, 1): only the equal target is dropped, another shard of the same node is a different target
+example : pagerPlan (some (2, some 1)) [(1, 0), (2, 1), (3, 0)] = [(2, 1), (1, 0), (3, 0)] := by decide
+example : pagerPlan (some (2, some 1)) [(1, 0), (2, 0), (3, 0)] = [(2, 1), (1, 0), (2, 0), (3, 0)] := by decide
+
 private theorem inj_of_nodup_map {β γ : Type} (f : β → γ) :
     ∀ {l : List β}, (l.map f).Nodup → ∀ a ∈ l, ∀ b ∈ l, f a = f b → a = b
   | [], _, _, ha, _, _, _ => by simp at ha
